@@ -145,14 +145,22 @@ func Decorate(t *rapid.T, g *Grammar, o DecorateOpts) map[string]bool {
 		feat["header-comments"] = true
 	}
 	if o.MaxExtraRules > 0 && pct(12, "big?") {
-		k := rapid.SampledFrom([]int{0, 10, 100, 250, 252, 253, 254, 255, 256, 257, 300, o.MaxExtraRules}).Draw(t, "extra")
-		if k > o.MaxExtraRules {
-			k = o.MaxExtraRules
+		// the generated file numbers rules, actions and the capture pseudo-rule together;
+		// aim the total at the boundaries of the rule-number type
+		consts := len(g.Rules) + g.Count(KAct)
+		if g.Count(KCap) > 0 {
+			consts++
 		}
-		AddChain(g, k)
-		feat[fmt.Sprintf("rules:%d+", (len(g.Rules)/100)*100)] = true
-		if len(g.Rules) >= 250 {
-			feat["rules:>=250"] = true
+		target := rapid.SampledFrom([]int{0, 30, 120, 253, 254, 255, 256, 257, 258, 300, o.MaxExtraRules}).Draw(t, "target")
+		if target > o.MaxExtraRules {
+			target = o.MaxExtraRules
+		}
+		if k := target - consts; k > 0 {
+			AddChain(g, k)
+			feat[fmt.Sprintf("rules:%d+", (target/100)*100)] = true
+			if target >= 253 && target <= 258 {
+				feat[fmt.Sprintf("rule-constants:exactly-%d", target)] = true
+			}
 		}
 	}
 	g.Number()
